@@ -2,8 +2,8 @@
 # usage: tools/eval_benign_theme.sh <theme>   (patches in /tmp/benign/<theme>/patchN.diff)
 t=$1
 cd /verif
-for p in /tmp/benign/$t/patch*.diff; do
+for p in ${BENIGN_DIR:-/tmp/benign}/$t/patch*.diff; do
   n=$(basename $p .diff | sed 's/patch//')
-  python3 tools/eval_benign.py B-$t-$n $p /tmp/benign/$t/NOTES.md
+  python3 tools/eval_benign.py ${BENIGN_PREFIX:-B}-$t-$n $p ${BENIGN_DIR:-/tmp/benign}/$t/NOTES.md
 done
-git -C /repo worktree remove --force /tmp/benign-wt-$t 2>/dev/null
+git -C /repo worktree remove --force ${BENIGN_WT:-/tmp/benign-wt}-$t 2>/dev/null
